@@ -733,12 +733,15 @@ func lexBlankNode(l *lexer) stateFn {
 func lexPredicateOrLiteral(l *lexer) stateFn {
 	text := l.input[l.pos:]
 	// Fix issue 39 (https://github.com/google/badwolf/issues/39)
-	pIdx, lIdx := strings.Index(text, "\"@["), strings.Index(text, "\"^^type:")
+	// The opening quote cannot be the quote that closes the value, so the
+	// delimiters are looked for after it (an ID such as ^^type:x is fine).
+	rest := text[1:]
+	pIdx, lIdx := strings.Index(rest, "\"@["), strings.Index(rest, "\"^^type:")
 	if pIdx < 0 && lIdx < 0 {
 		l.emitError("failed to parse predicate or literal for opening \" delimiter")
 		return nil
 	}
-	if pIdx > 0 && (lIdx < 0 || pIdx < lIdx) {
+	if pIdx >= 0 && (lIdx < 0 || pIdx < lIdx) {
 		return lexPredicate
 	}
 	return lexLiteral
